@@ -45,6 +45,8 @@ const LEN: usize = 8; // Vec length prefix
 pub trait SizeLaw: Scheme {
     fn commitment_size(sess: &Session<Self>, i: usize) -> usize;
     fn proof_size(sess: &Session<Self>, order: &[usize]) -> usize;
+    /// the per-label proofs of `open_combinations` obey the same law as those of `batch_open`
+    const LC_LAW: bool = true;
 }
 
 impl SizeLaw for Marlin {
@@ -82,6 +84,7 @@ impl SizeLaw for Pst13 {
     }
 }
 impl SizeLaw for Hyrax {
+    const LC_LAW: bool = false;
     fn commitment_size(sess: &Session<Self>, _i: usize) -> usize {
         LEN + (1usize << (sess.keys.info.num_vars / 2)) * g1()
     }
@@ -124,7 +127,47 @@ pub fn check_alg<S: SizeLaw>(c: &Scn, ctx: &mut CaseCtx) -> Result<(), Failure> 
         })?;
         sum += got;
     }
-    ctx.check(total == sum, sig(P, S::NAME, "batch_proof", "size_law"), || format!("batch proof has {total} bytes, its proofs sum to {sum}"))
+    ctx.check(total == sum, sig(P, S::NAME, "batch_proof", "size_law"), || format!("batch proof has {total} bytes, its proofs sum to {sum}"))?;
+    if !S::LC_LAW {
+        return Ok(());
+    }
+    // combination openings: one single-term combination per polynomial (in the prover's listing order,
+    // coefficient 1 for degree-bounded polynomials, which may not be scaled), queried where the
+    // polynomial is queried; the proof of each point label obeys the law of the polynomials opened there
+    use ark_poly_commit::{LCTerm, LinearCombination};
+    let mut lcs = Vec::new();
+    for (n, i) in sess.perm_p.iter().enumerate() {
+        let coeff = if sess.meta[*i].bound.is_some() { S::F::from(1u64) } else { S::F::from(n as u64 + 2) };
+        lcs.push(LinearCombination::new(format!("lc{i}"), vec![(coeff, LCTerm::PolyLabel(sess.polys[*i].label().clone()))]));
+    }
+    let mut lqs = std::collections::BTreeSet::new();
+    for g in &sess.groups {
+        for i in &g.polys {
+            lqs.insert((format!("lc{i}"), (g.label.clone(), g.point.clone())));
+        }
+    }
+    let ps: Vec<_> = sess.perm_p.iter().map(|i| &sess.polys[*i]).collect();
+    let cs: Vec<_> = sess.perm_p.iter().map(|i| &sess.comms[*i]).collect();
+    let ss: Vec<_> = sess.perm_p.iter().map(|i| &sess.states[*i]).collect();
+    let mut r = rng(sess.seeds[1]);
+    let mut sp = sess.sponge();
+    let Out::Ok(lp) = guard(|| S::PC::open_combinations(&sess.keys.ck, &lcs, ps, cs, &lqs, &mut sp, ss, Some(&mut r))) else {
+        ctx.label("open_combinations_failed(C06)");
+        return Ok(());
+    };
+    ctx.label("combination_proof_sizes_checked");
+    let proofs: Vec<Proof<S>> = lp.proof.into();
+    ctx.check(proofs.len() == sess.groups.len(), sig(P, S::NAME, "combination_proof", "one_proof_per_point_label"), || {
+        format!("{} proofs for {} point labels", proofs.len(), sess.groups.len())
+    })?;
+    for (g, p) in sess.groups.iter().zip(&proofs) {
+        let got = S::proof_bytes(p, true).len();
+        let want = S::proof_size(&sess, &g.polys);
+        ctx.check(got == want, sig(P, S::NAME, "combination_proof", "size_law"), || {
+            format!("combination proof for label {} ({} polynomials, hiding {:?}) has {got} bytes, law says {want}", g.label, g.polys.len(), g.polys.iter().map(|i| sess.meta[*i].hiding.is_some()).collect::<Vec<_>>())
+        })?;
+    }
+    Ok(())
 }
 
 // ------------------------------------------------------------------------------------------------
@@ -302,7 +345,7 @@ pub fn spec() -> PropertySpec {
     ));
     PropertySpec {
         id: "C19",
-        rule: "Serialized (compressed) sizes of commitments, proofs and batch proofs along generated transcripts, with element sizes measured from the curve types. Equalities: KZG10/Marlin/Sonic commitment = one G1 (+ option tag, + one G1 with a bound for Marlin), proof = one G1 + Option<F> regardless of the degree; batch proof = length prefix + one proof per point label; PST13 proof = num_vars G1 + Option<F>; multilinear PST proof = nv G2, commitment = usize + G1; IPA proof = 2*log2(supported+1) group elements + final key + scalar + two options, independent of the committed degree; Hyrax commitment = 2^(n/2) group elements, proof per polynomial = 3 group elements + (2^(n/2) + 3) scalars (the third scalar is the r_eval added by the repair of F1); streaming commitment size_in_bytes = one G1, proof one G1. Ligero/Brakedown: commitment = metadata + one digest; proof <= 1.25 x the size its own shape accounts for (t columns of n_rows scalars with their Merkle paths plus (1+wf) vectors of n_cols scalars), and proof <= 4 x the minimum over power-of-two row counts of that model evaluated with the exact t of C13 (when the actual shape is succinct, i.e. t < codeword length, the minimum ranges over succinct shapes only; otherwise over all shapes). Non-trivial: polynomial degree below the supported degree or >= 2 point labels (group schemes); >= 64 coefficients (code-based).",
+        rule: "(Combination openings of the four algebraic trait schemes: one single-term combination per polynomial, the proof of each point label has the size the law gives for the polynomials opened there.) Serialized (compressed) sizes of commitments, proofs and batch proofs along generated transcripts, with element sizes measured from the curve types. Equalities: KZG10/Marlin/Sonic commitment = one G1 (+ option tag, + one G1 with a bound for Marlin), proof = one G1 + Option<F> regardless of the degree; batch proof = length prefix + one proof per point label; PST13 proof = num_vars G1 + Option<F>; multilinear PST proof = nv G2, commitment = usize + G1; IPA proof = 2*log2(supported+1) group elements + final key + scalar + two options, independent of the committed degree; Hyrax commitment = 2^(n/2) group elements, proof per polynomial = 3 group elements + (2^(n/2) + 3) scalars (the third scalar is the r_eval added by the repair of F1); streaming commitment size_in_bytes = one G1, proof one G1. Ligero/Brakedown: commitment = metadata + one digest; proof <= 1.25 x the size its own shape accounts for (t columns of n_rows scalars with their Merkle paths plus (1+wf) vectors of n_cols scalars), and proof <= 4 x the minimum over power-of-two row counts of that model evaluated with the exact t of C13 (when the actual shape is succinct, i.e. t < codeword length, the minimum ranges over succinct shapes only; otherwise over all shapes). Non-trivial: polynomial degree below the supported degree or >= 2 point labels (group schemes); >= 64 coefficients (code-based).",
         assumptions: vec![
             "Brakedown's codeword length for alternative shapes is modelled by its rate 1000/1521",
             "the 4x law is the one stated in the property's quantifier",
